@@ -76,11 +76,11 @@ def tscaleCmd (f : List String) : Option String :=
   match f with
   | [d0, d1, r0, r1, t, y, tinv] => do
     let d0 ← parseInt d0; let d1 ← parseInt d1; let r0 ← parseRat r0; let r1 ← parseRat r1
-    let t ← parseInt t; let y ← parseRat y; let tinv ← parseRat tinv
+    let t ← parseRat t; let y ← parseRat y; let tinv ← parseRat tinv     -- the instant may carry microseconds (a fraction of a millisecond)
     let my := Scale.apply false d0 d1 r0 r1 t
     let tol := ratAbs (r1 - r0) / 1000000000 * (1 + ratAbs (my - r0) / ratAbs (r1 - r0))
     let same := decide (ratAbs (y - my) ≤ tol)
-    let inside := decide (min d0 d1 ≤ t) && decide (t ≤ max d0 d1)
+    let inside := decide (((min d0 d1 : Int) : Rat) ≤ t) && decide (t ≤ ((max d0 d1 : Int) : Rat))
     -- 1 ms, plus the float resolution of the range values carried back through the inverse map
     let cond := ratMax (ratAbs r0) (ratAbs r1) / ratAbs (r1 - r0)
     let backTol : Rat := 1 + ratAbs ((d1 - d0 : Int) : Rat) * cond / 1125899906842624 * 4
